@@ -65,6 +65,10 @@ class IdentManager:
     def __init__(self):
         self.current = 0
 
+    def __getstate__(self):
+        # the identity of the thread which holds the contexts right now has no meaning for an unpickled copy
+        return {'current': 0}
+
     def __enter__(self):
         self.current = get_ident()
 
